@@ -208,6 +208,35 @@ def swap_workshop(ctx, mon, rng, L):
         pass
 
 
+def many_points(ctx, mon, rng):
+    """a value with 9..30 change points, queried with ranges that begin and end exactly on them (and one off)"""
+    L = ctx.L
+    with mon.quiet():
+        n = rng.randint(14, 28)
+        v = L.AnsiString(''.join(rng.choice('abc ') for _ in range(n)))
+        codes = ['bold', 'red', 'italic', 'bg_blue', 'underline', 'blue']
+        for _ in range(rng.randint(6, 14)):
+            a = rng.randrange(n)
+            v.apply_formatting(rng.choice(codes), a, min(n, a + rng.randint(1, 6)), topmost=rng.random() < 0.8)
+        if rng.random() < 0.3:
+            v = L.AnsiStr(v)
+        o = O.observe(v)
+        cps = o.change_points() or [0]
+    ctx.sig('many-points')
+    for _ in range(12):
+        sel = rng.sample(codes, rng.choice([1, 1, 2]))
+        a = rng.choice(cps + [0])
+        b = rng.choice(cps + [None, n])
+        if rng.random() < 0.3 and b is not None:
+            b += rng.choice([-1, 1])
+        try:
+            v.find_settings(sel, a, b, rng.random() < 0.4)
+        except Exception:
+            pass
+    for i in rng.sample(range(n), 4):
+        v.settings_at(i)
+
+
 def drive(ctx, mon, tier, only_case=None):
     L = ctx.L
     sz = tier_sizes(tier)
@@ -249,6 +278,8 @@ def drive(ctx, mon, tier, only_case=None):
             return
         profile = 'mixed' if rng.random() < 0.25 else 'wf'
         history(L, rng, ex, rng.randint(1, sz['nops']), sz['maxlen'], profile, WEIGHTS)
+        if rng.random() < 0.3:
+            many_points(ctx, mon, rng)
         for _ in range(3):
             swap_workshop(ctx, mon, rng, L)
         for v in ansi_values(L, ex)[-5:]:
